@@ -10,7 +10,8 @@ prefixes; the Python identifiers and the sympy names must be pairwise distinct.
 
 Tie: the Lean model `PyPrint` (printer, mangling, classification, Python expression grammar,
 evaluator; driver `drv_c24`) gets the same flat model and must give the same identifiers, the
-same sympy name strings, the same equation text character by character; its parser, run on
+same sympy name strings, the same equation text as a Python token stream (blanks, line layout and
+comments are free); its parser, run on
 CPython's token list of the real text, must give CPython's tree; its evaluator must give the
 oracle's values.  A second stream ties the grammar instance itself to CPython (minimal and
 redundant parenthesisations of random trees).
@@ -644,7 +645,7 @@ def check_case(ctx, case, drv, printer):
     elif len(ids) != declared and lists_ok:
         viol("number of created symbols differs from the number of flat variables", {"stage": "distinct"}, declared, len(ids))
     # (3b) literals: every number written in an equation is the flat equation's number, exactly
-    glines = L.eq_lines(src)
+    glines = L.eq_texts(src, case["name"])
     if len(glines) == len(feqs):
         for i, (fe, ln) in enumerate(zip(feqs, glines)):
             want = L.term_lits(fe[0]) + L.term_lits(fe[1])
@@ -700,7 +701,7 @@ def check_case(ctx, case, drv, printer):
                 if got != ref:
                     viol("an element of eqs evaluates differently from lhs - rhs of the flat equation",
                          {"stage": "eqs", "eq": i, "needs_parens": np_flags[i], "point": k,
-                          "flat": [fe[0], fe[1]], "line": (L.eq_lines(src) + [None] * (i + 1))[i]},
+                          "flat": [fe[0], fe[1]], "line": (L.eq_texts(src, case["name"]) + [None] * (i + 1))[i]},
                          ref, got)
                     break
             if anyok:
@@ -752,10 +753,11 @@ def model_tie(ctx, case, drv, printer, real, obj, np_flags):
         m_mat = {k: ans["lists"][k] for k in ("x", "v", "c", "p", "u", "y")}
         if r_mat != m_mat:
             ctx.disagreement("matrices", dict(kcase, focus=dict(kcase["focus"], what="matrices")), m_mat, r_mat)
-    lines = L.eq_lines(src)
-    if lines != ans["eq_src"]:
+    lines = L.eq_texts(src, case["name"])
+    # the equation text is compared as a Python token stream: blanks, line layout and comments are free
+    if len(lines) != len(ans["eq_src"]) or not all(L.same_tokens(a, b) for a, b in zip(lines, ans["eq_src"])):
         bad = [i for i in range(max(len(lines), len(ans["eq_src"])))
-               if i >= len(lines) or i >= len(ans["eq_src"]) or lines[i] != ans["eq_src"][i]]
+               if i >= len(lines) or i >= len(ans["eq_src"]) or not L.same_tokens(lines[i], ans["eq_src"][i])]
         i = bad[0]
         ctx.disagreement("equation-text", dict(kcase, focus=dict(kcase["focus"], what="text", eq=i,
                          needs_parens=np_flags[i] if i < len(np_flags) else None)),
@@ -773,7 +775,8 @@ def model_tie(ctx, case, drv, printer, real, obj, np_flags):
         ctx.count("real-line-parsed-by-model")
         if pa["tree"] != tree:
             ctx.disagreement("python-grammar", dict(kcase, focus=dict(kcase["focus"], what="grammar", line=ln)), pa["tree"], tree)
-        if i < len(ans["eq_toks"]) and i < len(ans["eq_src"]) and ans["eq_src"][i] == ln and ans["eq_toks"][i] != toks:
+        if i < len(ans["eq_toks"]) and i < len(ans["eq_src"]) and L.same_tokens(ans["eq_src"][i], ln) \
+                and ans["eq_toks"][i] != toks:
             ctx.disagreement("tokens", dict(kcase, focus=dict(kcase["focus"], what="tokens", line=ln)), ans["eq_toks"][i], toks)
     # evaluator of the model vs the oracle's evaluator on the flat equations
     for i, fe in enumerate(feqs):
@@ -899,10 +902,15 @@ def detect_printer(ctx):
     real = run_real(PROBE)
     if "src" not in real:
         return "unknown"
-    lines = L.eq_lines(real["src"])
-    if lines == ["y - (a + b * c)"]:
+    lines = L.eq_texts(real["src"], "M")
+    try:
+        tree = L.py_tree(lines[0]) if len(lines) == 1 else None
+    except (SyntaxError, ValueError):
+        tree = None
+    A = lambda n: ["a", n]
+    if tree == ["b", 1, A("y"), ["b", 0, A("a"), ["b", 2, A("b"), A("c")]]]:
         return "cur"
-    if lines == ["y - ((a + b) * c)"]:
+    if tree == ["b", 1, A("y"), ["b", 2, ["b", 0, A("a"), A("b")], A("c")]]:
         return "fix"
     return "unknown"
 
@@ -981,7 +989,7 @@ MANIFEST = dict(
                "of the flat equation and evaluates like it under every interpretation (parenthesising printer of the current tree; "
                "for the printer before fix C24-1 only on expressions in natural precedence form, with a proved counterexample "
                "otherwise), mangling is injective under a stated side condition (with proved colliding pairs, open finding "
-               "C24-F2), and the lists are the prefix classes. Tied to the real generator on every run by text-exact "
+               "C24-F2), and the lists are the prefix classes. Tied to the real generator on every run by token-exact "
                "correspondence and to CPython's parser by differential parsing; direct oracle = compile + stubbed execution + "
                "exact evaluation of every equation at three points.",
     level_note="Trusted: Lean kernel + standard axioms; the harness; CPython's tokenizer/parser as the meaning of the printed "
